@@ -110,13 +110,21 @@ theorem execOp_keys (s : St) (op : Op) :
   | getKey k => simp only [execOp]; split <;> exact two _ (TStep.refl s)
   | getKeys => exact two _ (TStep.refl s)
   | getKeysWithData => exact two _ (TStep.refl s)
-  | resetRoutine k => exact two _ (tstep_resetKey s k)
-  | restartRoutine k => exact two _ (touch_restartKey s k).quiet.tstep
-  | resetAll =>
+  | resetRoutine k cs =>
+    simp only [execOp]
+    split
+    · exact two _ (tstep_resetKey s k)
+    · exact two _ (TStep.refl s)
+  | restartRoutine k cs =>
+    simp only [execOp]
+    split
+    · exact two _ (touch_restartKey s k).quiet.tstep
+    · exact two _ (TStep.refl s)
+  | resetAll cs =>
     simp only [execOp]
     rw [foldl_fst resetAllStep (fun s k => (resetKey s k).1) (fun _ _ => rfl)]
     exact two _ (foldl_tstep _ tstep_resetKey _ _)
-  | restartAll =>
+  | restartAll cs =>
     simp only [execOp]
     rw [foldl_fst restartAllStep (fun s k => (restartKey s k).1) (fun _ _ => rfl)]
     exact two _ (foldl_tstep _ (fun s k => (touch_restartKey s k).quiet.tstep) _ _)
